@@ -57,7 +57,7 @@ PROPERTIES['C05'] = {
     'level_note': _DOC_NOTE,
 }
 PROPERTIES['C06'] = {
-    'modules': ['harness.rep_ops', 'harness.view_ops', 'harness.slot_ops'], 'budget': {'quick': 900, 'thorough': 3300},
+    'modules': ['harness.rep_ops', 'harness.view_ops', 'harness.slot_ops', 'harness.c13_numexpr'], 'budget': {'quick': 900, 'thorough': 3300},
     'level_text': _DOC_TEXT % 're-parse of the printed text compared with a semantic dump of the edited model',
     'level_note': _DOC_NOTE + ' The re-parse speaks for the concrete text of each path.',
 }
